@@ -26,3 +26,7 @@ reg("C09", "property-based differential testing vs num-bigint BigInt cross-check
 reg("C11", "property-based testing against a rigorous ball-arithmetic enclosure with a Ziv precision ladder (proptest, 30 mode×base instantiations)",
     "exp, exp_m1, ln, ln_1p, powi, powf through Context and FBig methods for arguments placed by magnitude class (tiny, next to 0/1/-1, huge, exact points); the true value is enclosed by outward-rounded midpoint-radius arithmetic written for this harness (Taylor tails bounded explicitly, ln certified through exp), precision doubled up to 4 times; a result is a violation only when the whole enclosure is >= 1 ulp away, a pass only when the whole enclosure is < 1 ulp away, otherwise inconclusive; rational truths are compared exactly; Exact on an irrational truth is a violation. The enclosure kernel is self-checked against 80-digit constants and exp(ln x) at start-up.",
     TRUST + " Soundness of the oracle rests on dv/src/ball.rs; irrationality facts (Lindemann-Weierstrass, non-perfect-power roots) are assumed.")
+
+reg("C07", "property-based differential testing (proptest): num-bigint digits, std pad_integral + u128/i128 as layout reference, reference parser from the rustdoc grammar, own two's-complement decoder",
+    "Generated integers on every printer/parser size threshold (digits per word, 256-word chunks, divide-and-conquer levels, bit-packed radices straddling words) × 35 radices × 208 format specs × 5 formatting traits; valid, single-edit-mutated and arbitrary Unicode input strings through the four parse entry points; bytes (two's complement) and bit chunks round trips and raw decoding. Digits are compared with num-bigint, layout with Rust's own pad_integral and primitive formatting, parsing with a reference parser written from the rustdoc grammar.",
+    TRUST)
